@@ -60,12 +60,35 @@ def run(ck):
                                                            "arg": nm, "value": v, "model": model, "impl": real})
 
     s.after_apply.append(pe_model)
+    tr_corr = {"same": 0, "differ": 0}
+
+    def tr_model(p, q, op, descr, site, replay):
+        # correspondence of Transpose.tr_proc (about which C19_transpose is proved) with the real Procedure.transpose
+        if op != "transpose":
+            return
+        arg = [a for a in p._loopir_proc.args if str(a.name) == descr][0]
+        name = s.sc.ref(p)
+        ex = s.sc.ex
+        model = s.sc.interp.ask("(tr %s %s)" % (name, ex.sym(arg.name)))
+        real = ex.proc_sexp(q._loopir_proc)
+        defs = {n: sx for (n, sx) in ex.procs.values()}
+        ck.case("transpose-model-vs-impl", (replay["program"], descr), sample={"arg": descr})
+        if expand(model, defs) == expand(real, defs):
+            tr_corr["same"] += 1
+            ck.corr_agree("transpose-model-vs-impl")
+        else:
+            tr_corr["differ"] += 1
+            ck.corr_diverge("transpose-model-vs-impl", {"program": replay["program"], "source": replay["source"],
+                                                        "arg": descr, "model": model, "impl": real})
+
+    s.after_apply.append(tr_model)
     findings = s.run(n_programs=ck.n(40, 500), budget_s=ck.n(80, 900))
     for f in findings:
         ck.violation(f.key, f.replay, "%s at %s: %s" % (f.op, f.site, f.detail))
     ck.cov["search"] = s.stats
     ck.cov["annotation_erasure"] = erased
     ck.cov["partial_eval_model_correspondence"] = pe_corr
+    ck.cov["transpose_model_correspondence"] = tr_corr
     ck.cov["inputs_run_in_reference_semantics"] = s.sc.runs
     ck.cov["rule"] = ("generated procedures x {partial_eval of every control argument with sampled values, transpose of every 2-D "
                       "argument, add_assertion, rename, set_precision, set_memory, set_window, parallelize_loop}; inputs related "
